@@ -1,2 +1,3 @@
 -- root of the library: every property module
 import HitenModel.Props.C01
+import HitenModel.Props.C02
